@@ -71,7 +71,7 @@ ASSUMPTIONS = [
     "matches it, or it is the foreign row ('stp mode mstp' is never a block); part tree has no such restriction",
     "gen.py's three completion lines are replicated (merge_dicts(t, implicit.config(t, rules))), gen.old_new is not executed",
 ]
-BUDGET = {"quick": 90, "thorough": 900}
+BUDGET = {"quick": 150, "thorough": 1200}   # measured: ~300 / ~4000 core-seconds (20 s / 4-8 min on 16 cores)
 
 # name, devdb sequence the model is taken from, tags, text group, negation word
 CLASSES = [
